@@ -252,6 +252,22 @@ def m_eq_ignore_ascii_case(I, fr, callee, m, args):
     return sc_from(z3.And([z3.BoolVal(True)] + conj), 'bool')
 
 
+@model(r'^(?:(?:core|std|alloc)::)?(?:str::<impl str>|slice::(?:ascii::)?<impl \[u8\]>)::(to_ascii_lowercase|to_ascii_uppercase)$|^String::(to_ascii_lowercase|to_ascii_uppercase)$')
+def m_to_ascii_case(I, fr, callee, m, args):
+    """byte-wise ASCII case mapping (non-ASCII bytes unchanged) -> owned String / Vec<u8>"""
+    op = m.group(1) or m.group(2)
+    s_ = as_slice(I, args[0])
+    lo, hi, d = (65, 90, 32) if op == 'to_ascii_lowercase' else (97, 122, -32)
+    out = []
+    for x in I.seq_list(s_):
+        if x.concrete:
+            out.append(mk('u8', x.e + d if lo <= x.e <= hi else x.e))
+        else:
+            e = x.z()
+            out.append(sc_from(z3.If(z3.And(z3.UGE(e, lo), z3.ULE(e, hi)), e + d, e), 'u8'))
+    return VecV(out, 'str' in callee or 'String' in callee)
+
+
 @model(r'^(?:(?:core|std|alloc)::)?str::<impl str>::as_bytes$|^String::as_bytes$|^<String as Deref>::deref$|^String::as_str$|^<Vec<.*> as Deref>::deref$|^<Vec<.*> as DerefMut>::deref_mut$|^Vec::<.*>::as_slice$|^<Vec<.*> as AsRef<\[.*\]>>::as_ref$|^<String as AsRef<str>>::as_ref$|^<\[.*\] as AsRef<\[.*\]>>::as_ref$|^<String as Borrow<str>>::borrow$|^<str as AsRef<\[u8\]>>::as_ref$|^Vec::<.*>::as_mut_slice$')
 def m_as_slice(I, fr, callee, m, args):
     s = as_slice(I, args[0])
